@@ -502,6 +502,10 @@ def read_scenario(ctx, E, vars_, *, entry, params, call, total, g0, spec_at, uni
     def expect(model, desc):
         from symx import replay_entries
 
+        fe = desc.pop("_fault_expect", None)
+        if fe is not None:
+            desc.pop("_inflate", None)
+            return fe
         infl = desc.pop("_inflate", None)
         mems = {k: ConcMem(replay_entries.mkfile(v), inflate=infl) for k, v in desc["files"].items()}
         ops = {k: ConcMem(replay_entries.mkfile(v)) for k, v in desc.get("opaque", {}).items()}
@@ -544,3 +548,30 @@ def io_cases(reads, bound_bytes, bound_calls):
     for _, ln in reads:
         total = total + ln
     return [total > bound_bytes, len(reads) > bound_calls]
+
+def fault_finish(ctx, E, res, length, unit, zlog=None, unit_bytes=None):
+    """C11 obligations on a path that returned: bounded output, bounded inflate."""
+    from symx.sbytes import SymBytes
+
+    r = SymBytes.lift(res)
+    bad = [r.length() > length + unit]
+    for key in (zlog or []):
+        mx = key[4]
+        if isinstance(mx, int) and mx == 0:
+            bad.append(True)  # decompression without an output bound
+        else:
+            bad.append(mx > unit_bytes)
+    ctx.obligation(bad, "unbounded output or decompression on malformed input")
+
+
+def fault_mode(ctx):
+    """In fault mode an exception is an acceptable outcome (the property asks for 'returns or raises')."""
+    def ok(ex):
+        from symx.files import MonitorViolation
+
+        ctx.res["obligations"] += 1
+        if isinstance(ex, (MonitorViolation, RecursionError, MemoryError)):
+            ctx.res["errors"].append(f"fault mode: {type(ex).__name__}: {ex}")
+        else:
+            ctx.res["discharged"] += 1
+    ctx.raises_ok = ok
